@@ -9,6 +9,7 @@ import (
 	"path/filepath"
 	"sort"
 	"sync"
+	"syscall"
 	"time"
 
 	"github.com/glowlabs-org/gca-backend/glow"
@@ -313,6 +314,57 @@ func runArchive(c *ctx) error {
 			}
 		}
 		ta.Emit(hx.J{"a": "Burst", "ok": ok, "statuses": statuses, "n200": n200, "rate_us": int(consts["apiArchiveRateMs"] * 1000), "limit": int(consts["apiArchiveLimit"])})
+	}
+	// the append of a new device's authorization is stalled (a pipe in place of the file); the device's first report
+	// arrives meanwhile; an archive taken then must still be dependency-closed (the report is on disk only after its
+	// authorization is)
+	for round := 0; round < 2; round++ {
+		a.next++
+		id := a.next
+		key := fmt.Sprintf("ad%d", id)
+		auth := a.BuildAuth(hx.AuthSpec{ID: id, Key: key, Cap: 1000, Signer: "gca"})
+		path := filepath.Join(a.Dir, "equipment-authorizations.dat")
+		if err := os.Rename(path, path+".real"); err != nil {
+			break
+		}
+		if err := syscall.Mkfifo(path, 0644); err != nil {
+			os.Rename(path+".real", path)
+			break
+		}
+		s.NoResp = true
+		adone := make(chan struct{})
+		go func() { a.Authorize(auth); close(adone) }()
+		time.Sleep(80 * time.Millisecond)
+		rep := a.ReportBytes(id, a.Now()-1, 60+uint64(round), key, 0)
+		a.SendUDPNoWait(rep)
+		time.Sleep(80 * time.Millisecond)
+		os.Rename(path, path+".fifo")
+		os.Rename(path+".real", path)
+		st, body := -1, []byte(nil)
+		for try := 0; try < 20; try++ {
+			st, body = a.Get("/api/v1/archive")
+			if st != 429 {
+				break
+			}
+			time.Sleep(25 * time.Millisecond)
+		}
+		// the append completes: what the server writes into the pipe is put where it belongs
+		if f, err := os.OpenFile(path+".fifo", os.O_RDONLY, 0); err == nil {
+			b, _ := io.ReadAll(f)
+			f.Close()
+			if g, err := os.OpenFile(path, os.O_APPEND|os.O_WRONLY, 0644); err == nil {
+				g.Write(b)
+				g.Close()
+			}
+		}
+		select {
+		case <-adone:
+		case <-time.After(5 * time.Second):
+		}
+		os.Remove(path + ".fifo")
+		s.NoResp = false
+		a.Deliver(rep) // the report again, now that its device is on disk (a duplicate if it was accepted before)
+		a.decode(st, body, "authorization append stalled")
 	}
 	// several archives of large files served at the same time (the limiter admits its whole allowance at once): each
 	// one is a well-formed zip whose files are record-aligned prefixes of the files on disk
